@@ -16,6 +16,9 @@ var verifSym = map[string]rune{
 	"CR": '\r', "VT": '\v', "FF": '\f', "LF": '\n', "BS": '\b', "US": '\x1f', "DEL": '\x7f',
 	"NBSP": '\u00a0', "NEL": '\u0085', "IDSP": '\u3000', "EMSP": '\u2003', "ZWSP": '\u200b',
 	"a`": '\u00e0', "aog": '\u0105', "dag": '\u2020', "ni": '\u4f60', "hori": '\u5800',
+	// added for non-ASCII literal delimiters (C10): e-grave (C3 A8, next to e-acute C3 A9), box drawings light
+	// vertical (E2 94 82) / horizontal (E2 94 80)
+	"e`": '\u00e8', "bxv": '\u2502', "bxh": '\u2500',
 }
 
 var verifSymOf = func() map[rune]string {
